@@ -49,6 +49,31 @@ def mk(qual=None):
     return repo, spec, ex
 
 
+def learn_fields(repo, cls, nargs=0):
+    """run the real __init__ of a class symbolically on a scratch state to learn which fields an instance has and of which container kind;
+    units then start from an instance whose containers have ARBITRARY contents (every field a method could have filled), so that state a
+    change adds to the class (a cache, a counter) is part of the entry state instead of an unknown attribute"""
+    ex = lib.install(Exec(repo, None)); a1.install(ex)
+    init, kind, dc = repo.method(cls, '__init__')
+    if init is None:
+        return {}
+    st = St(); o = st.alloc(cls)
+    args = [o] + [fresh('init_arg') for _ in range(nargs)]
+    out = {}
+    try:
+        res = ex.call_function(st, init, repo.classes[dc][0], dc, None, args, {}, '__init__')
+    except Unsupported:
+        return {}
+    for s, r in res[:1]:
+        for f in list(s.heap):
+            v = s.rd(o, f)
+            if s.entails(Val.is_ref(v)):
+                kd = ex.kind_of(s, v)
+                if isinstance(kd, str) and any(b in LAT.ancestors(kd) for b in ('dict', 'list')):
+                    out[f] = kd
+    return out
+
+
 def sym_recording(st, name='rec', cls='MemoryRecording'):
     rec = st.sym_obj(name, cls)
     d = st.sym_obj(name + '_data', 'dict'); m = st.sym_obj(name + '_meta', 'dict')
@@ -75,6 +100,9 @@ def in_memory_roundtrip(props=None):
     m, cls, save, info_s = repo.find(TC + 'save_recording'); _, _, get, info_g = repo.find(IM + 'get_recording')
     _, _, isave, info_is = repo.find(IM + '_save_recording'); _, _, getm, info_gm = repo.find(TC + 'get_recording_metadata')
     st = St(); selfv = st.sym_obj('self', 'InMemoryTapeCassette'); store = st.sym_obj('store', 'OrderedDict'); st.wr(selfv, '_recordings', store)
+    for f_, kd_ in learn_fields(repo, 'InMemoryTapeCassette').items():
+        if f_ != '_recordings':
+            st.wr(selfv, f_, st.sym_obj(f_.strip('_'), kd_))
     rec, d, mt, rid = sym_recording(st)
     st.assume(z3.Distinct(Val.addr(store), Val.addr(d), Val.addr(mt), Val.addr(rec), Val.addr(selfv)))
     other = fresh('other_id'); st.assume(Val.is_s(other)); st.assume(other != Val.s(rid)); other_before = (st.dhas(store, other), st.dget(store, other))
@@ -280,6 +308,9 @@ def in_memory_iter(props=None):
     repo = Repo(REPO_ROOT); spec = IterSpec(); ex = lib.install(Exec(repo, spec)); spec.install(ex)
     m, cls, node, info = repo.find(IM + 'iter_recording_ids')
     st = St(); selfv = st.sym_obj('self', 'InMemoryTapeCassette'); store = st.sym_obj('store', 'OrderedDict'); st.wr(selfv, '_recordings', store)
+    for f_, kd_ in learn_fields(repo, 'InMemoryTapeCassette').items():
+        if f_ != '_recordings':
+            st.wr(selfv, f_, st.sym_obj(f_.strip('_'), kd_))
     cat = fresh('category'); st.assume(Val.is_s(cat))
     md = fresh('metadata'); st.assume(z3.Or(md == NONE, z3.And(Val.is_ref(md), Val.addr(md) < BASE, Val.addr(md) >= 0, TYP(Val.addr(md)) == K('dict')))); st.note(md, 'dict')
     lim = fresh('limit'); st.assume(z3.Or(lim == NONE, z3.And(Val.is_i(lim), Val.iv(lim) >= 1)))        # requires: limit is None or >= 1
@@ -542,3 +573,48 @@ def lemmas(props=None):
         out.append(smt.lemma('%s/lemma/created_ids_have_distinct_files' % P, P, inj, timeout=120, order=('cvc5', 'z3')))
     return {'results': out, 'assumptions': ['A4 names returned by os.listdir contain no separator; os.path.join(d, n) = d + "/" + n for relative n',
                                             'string fact: replace_all of a one-character pattern distributes over concatenation']}
+
+
+def pickle_copy_unit(props=None):
+    """playback.utils.pickle_copy.pickle_copy(value) is decode(encode(value)) for EVERY value: by A1 the structural copy CP(value) -- a new
+    object for every object (tuples and frozensets included), the value itself only for immutable scalars"""
+    repo = Repo(REPO_ROOT); ex = lib.install(Exec(repo, None)); a1.install(ex)
+    m, cls, node, info = repo.find('playback.utils.pickle_copy:pickle_copy')
+    st = St(); v = fresh('value'); st.assume(z3.Not(Val.is_cls(v))); st.assume(z3.Implies(Val.is_ref(v), z3.And(Val.addr(v) < BASE, Val.addr(v) >= 0)))
+    # the value is not itself a recording / plain dict handled by the structured part of the A1 model: any other object or scalar
+    st.assume(z3.Implies(Val.is_ref(v), z3.And(TYP(Val.addr(v)) != K('dict'), TYP(Val.addr(v)) != K('MemoryRecording'))))
+    st.push({'value': v}, None, (m.name, None, node)); obl = []; n = 0
+    for s, oc in ex.block(node.body, st):
+        n += 1
+        if oc[0] == 'return':
+            obl.append(Obl('C11/pickle_copy/result_is_the_structural_copy_never_the_object_itself', ('C11', 'C01', 'C07'), s,
+                           z3.And(oc[1] == CP(v), z3.Implies(Val.is_ref(v), oc[1] != v)), oc))
+        else:
+            obl.append(Obl('C11/pickle_copy/raises_only_ordinary', ('C11', 'C04'), s, is_exc(oc[1]), oc))
+    return [info], obl, {'paths': n, 'forks': ex.forks}
+
+
+def in_memory_get(props=None):
+    """get_recording from an ARBITRARY cassette state (class invariant: every stored value is the encoding of a recording): the result is
+    allocated in this call and holds CP-copies of exactly what the stored encoding describes -- whatever other state the cassette carries"""
+    repo, spec, ex = mk(); m, cls, node, info = repo.find(IM + 'get_recording')
+    st = St(); selfv = st.sym_obj('self', 'InMemoryTapeCassette'); store = st.sym_obj('store', 'OrderedDict'); st.wr(selfv, '_recordings', store)
+    extra = []
+    for f_, kd_ in learn_fields(repo, 'InMemoryTapeCassette').items():
+        if f_ != '_recordings':
+            o_ = st.sym_obj(f_.strip('_'), kd_); st.wr(selfv, f_, o_); extra.append(o_)
+    rid = fresh('rid', Str); enc = st.dget(store, Val.s(rid))
+    st.assume(z3.And(st.dhas(store, Val.s(rid)), Val.is_s(enc), E_KIND(Val.sv(enc)) == 1, E_ID(Val.sv(enc)) == Val.s(rid), z3.Length(rid) > 0))
+    e = Val.sv(enc)
+    st.push({'self': selfv, 'recording_id': Val.s(rid)}, None, (m.name, cls, node)); obl = []; n = 0; P = ('C11', 'C07')
+    for s, oc in ex.block(node.body, st):
+        n += 1
+        if oc[0] != 'return':
+            obl.append(Obl('C11/InMemoryTapeCassette.get_recording/stored_id_is_returned', P, s, z3.BoolVal(False), oc)); continue
+        q = oc[1]; qd, qm = s.rd(q, 'recording_data'), s.rd(q, 'recording_metadata'); k_ = fresh('k')
+        obl.append(Obl('C11/InMemoryTapeCassette.get_recording/fresh_graph_from_any_cassette_state', P, s,
+                       z3.And(Val.is_ref(q), Val.addr(q) > BASE, Val.is_ref(qd), Val.addr(qd) > BASE, Val.is_ref(qm), Val.addr(qm) > BASE), oc))
+        obl.append(Obl('C07/InMemoryTapeCassette.get_recording/contents_are_copies_of_the_stored_encoding', P, s,
+                       z3.And(s.rd(q, 'id') == Val.s(rid), s.g['ddom'][Val.addr(qd)] == E_DDOM(e), z3.Implies(E_DDOM(e)[k_], s.g['dmap'][Val.addr(qd)][k_] == CP(E_DMAP(e)[k_])),
+                              z3.Or(s.g['ddom'][Val.addr(qm)] == E_MDOM(e), z3.And(E_MDOM(e) == z3.K(Val, False), s.g['ddom'][Val.addr(qm)] == z3.K(Val, False)))), oc))
+    return [info], obl, {'paths': n, 'forks': ex.forks}
